@@ -19,7 +19,16 @@ import (
 	"github.com/modelcontextprotocol/go-sdk/jsonrpc"
 )
 
-var c17Names = []string{"a", "b", "c", "d", "e"}
+// The first name is the empty string: a prompt may be registered under it (its uid is then ""),
+// the other kinds register it as "a" (tool names and URIs may not be empty).
+var c17Names = []string{"", "b", "c", "d", "e"}
+
+func c17Alias(n string) string {
+	if n == "" {
+		return "a"
+	}
+	return n
+}
 
 type c17Kind struct {
 	name   string
@@ -31,6 +40,20 @@ type c17Kind struct {
 }
 
 func c17Kinds() []c17Kind {
+	ks := c17KindsRaw()
+	for i := range ks {
+		if ks[i].name == "prompts" {
+			continue
+		}
+		k := ks[i]
+		ks[i].id = func(n string) string { return k.id(c17Alias(n)) }
+		ks[i].add = func(s *Server, n string, v int) { k.add(s, c17Alias(n), v) }
+		ks[i].remove = func(s *Server, n string) { k.remove(s, c17Alias(n)) }
+	}
+	return ks
+}
+
+func c17KindsRaw() []c17Kind {
 	return []c17Kind{
 		{
 			name: "tools", id: func(n string) string { return n },
